@@ -12,7 +12,7 @@ Request:  c15_hist <TAB> variant <TAB> config <TAB> styles <TAB> ops <TAB> what
             P:<seg|seg|…>   seg = text;styleid-or-dash;control
             L:n   C:<str>   B   K:home   S:show   <   >   T:clear:styles
             H:clear:inline:fg:bg:item,item,…   item = l<str> | c | s | f | b
-  what    : file | outs | record | state
+  what    : all (the four below, tab separated) | file | outs | record | state
 Strings are space-separated decimal code points.
 -/
 namespace RichModel.Drv.C15
@@ -122,7 +122,10 @@ def handlers : List (String × (List String → String)) := [
       match decStyles styles, decOps ops with
       | some rows, some ops =>
         let r := run (decVariant v) (decConfig cfg) (envOf rows) ops {}
-        if what == "file" then encStrList (r.1.file.map flat)
+        if what == "all" then
+          "\t".intercalate [encStrList (r.1.file.map flat), ",".intercalate (r.2.map encOut), encLine r.1.record,
+            toString r.1.index ++ "#" ++ encLine r.1.buffer]
+        else if what == "file" then encStrList (r.1.file.map flat)
         else if what == "outs" then ",".intercalate (r.2.map encOut)
         else if what == "record" then encLine r.1.record
         else if what == "state" then toString r.1.index ++ "#" ++ encLine r.1.buffer
